@@ -328,3 +328,48 @@ def r7_expander_and_dedup(ctx):
 
 
 RULES.append(r7_expander_and_dedup)
+
+
+def r8_splicer_maps(ctx):
+    """C11.R8: Splicer.__init__ — `None` means "no map" (inputs by name / outputs by name), an explicit map — also an empty one —
+    is honoured; splice_source keeps the replaced source's outputs and payload and connects it to the mapped input."""
+    repo = ctx.repo
+    fi = repo.func(f"{G}.expand.Splicer.__init__")
+    ctx.analysed(fi.qual)
+    inputs = {"a": Sym("IN_a"), "b": Sym("IN_b")}
+    cases = [(None, None, inputs, {"o1": "o1", "o2": "o2"}), ({}, {}, {}, {"o1": "o1", "o2": "o2"}),
+             ({"src": "a"}, {"o1": "leaf"}, {"src": Sym("IN_a")}, {"o1": "leaf", "o2": "o2"})]
+    for imap, omap, want_in, want_out in cases:
+        me = Obj(f"{G}.expand.Splicer", {}, name="SPL")
+        paths = Interp(repo).explore(fi, args={"self": me, "name": "n", "inputs": dict(inputs), "input_map": imap, "outputs": ["o1", "o2"], "output_map": omap})
+        ctx.evals(len(paths))
+        for p in paths:
+            got = None
+            for e in p.effects:
+                for v in e.data.values():
+                    if isinstance(v, Obj) and v.name == "SPL":
+                        got = v
+            gi, go = (got.fields.get("inputs"), got.fields.get("outputs")) if got is not None else (None, None)
+            if p.exit[0] != "return" or gi != want_in or go != want_out:
+                ctx.violation("C11.R8", fi.qual, loc(fi), "input / output maps honoured",
+                              f"Splicer(inputs a,b; input_map={imap!r}; outputs o1,o2; output_map={omap!r}): inputs={vkey(gi)[:80]} outputs={vkey(go)[:80]}; expected inputs={vkey(want_in)} "
+                              f"outputs={want_out} (an explicit empty input map means 'connect nothing'; treating it like None splices a same-named sub-graph source to the outer graph)")
+            else:
+                ctx.ok("C11.R8", loc(fi), f"Splicer maps | input_map={imap!r} output_map={omap!r}")
+    ss = repo.func(f"{G}.expand.Splicer.splice_source")
+    ctx.analysed(ss.qual)
+    src = _node("s", {}, ["x", "y"], payload="PAY")
+    for p in Interp(repo).explore(ss, args={"name": "n.s", "s": src, "input": Sym("IN")}):
+        rv = p.exit[1] if p.exit[0] == "return" else None
+        outs = (rv.args[1] if len(rv.args) > 1 else rv.kwargs.get("outputs")) if isinstance(rv, Obj) else None
+        pay = (rv.args[2] if len(rv.args) > 2 else rv.kwargs.get("payload")) if isinstance(rv, Obj) else None
+        nm = (rv.args[0] if rv.args else rv.kwargs.get("name")) if isinstance(rv, Obj) else None
+        if not (isinstance(rv, Obj) and rv.cls == NODE and nm == "n.s" and outs == ["x", "y"] and pay == "PAY" and Sym("IN") in rv.kwargs.values()):
+            ctx.violation("C11.R8", ss.qual, loc(ss), "spliced source keeps its outputs",
+                          f"splice_source('n.s', source with outputs [x, y], input) builds {vkey(rv)[:120]}; the replacement must keep the source's outputs and payload and consume the mapped input "
+                          f"(consumers of a named output of that source could not be rewired otherwise)")
+        else:
+            ctx.ok("C11.R8", loc(ss), "splice_source keeps name, outputs, payload and connects the mapped input")
+
+
+RULES.append(r8_splicer_maps)
